@@ -49,9 +49,10 @@ struct Env {
     // work of exactly one initialisation
     bool first_done = false;
     uint64_t first[5] = {0, 0, 0, 0, 0};
-    void snapshot_first() { if (first_done) return; first_done = true; first[0] = init_pagesize_queries; first[1] = init_entropy_calls; first[2] = init_entropy_bytes; first[3] = init_stirs; first[4] = init_src_bytes; }
+    int first_fds = 0, (*count_fds)() = nullptr;
+    void snapshot_first() { if (first_done) return; first_done = true; first_fds = count_fds ? count_fds() : 0; first[0] = init_pagesize_queries; first[1] = init_entropy_calls; first[2] = init_entropy_bytes; first[3] = init_stirs; first[4] = init_src_bytes; }
     void reset(uint64_t seed) {
-        first_done = false; memset(first, 0, sizeof first);
+        first_done = false; memset(first, 0, sizeof first); first_fds = 0;
         entropy_seed = seed;
         memset(ent_off, 0, sizeof ent_off); memset(tod, 0, sizeof tod); memset(in_init, 0, sizeof in_init);
         init_pagesize_queries = init_entropy_calls = init_entropy_bytes = init_stirs = init_src_bytes = total_entropy_calls = 0;
@@ -84,12 +85,19 @@ bool env_fault(unsigned salt) {
 bool g_no_getrandom = false;
 const int FD_BASE = 1000, FD_MAX = 32;
 struct SimFd { bool open = false; char dev = 0; } g_fds[FD_MAX];
-uint64_t g_fd_cells[FD_MAX];
+// one cell per (descriptor number, thread): open()/close() by thread t write cell [fd][t], a use of the number by any
+// thread reads the whole row.  So a use races with another thread's unordered close/open of that number (the bug class:
+// a descriptor closed or recycled under a reader), while two threads opening and closing descriptors of their own never
+// conflict with each other (the kernel serialises its table; number reuse is not a defect).
+uint64_t g_fd_cells[FD_MAX][MAXTHREADS + 2];
 uint64_t g_dev_reads = 0, g_dev_opens = 0;
 void fd_access(int fd, bool write) {
     if (fd < FD_BASE || fd >= FD_BASE + FD_MAX) return;
-    simrt::on_access((uintptr_t) &g_fd_cells[fd - FD_BASE], 8, write, (uintptr_t) __builtin_return_address(0));
+    uintptr_t pc = (uintptr_t) __builtin_return_address(0);
+    if (write) { simrt::on_access((uintptr_t) &g_fd_cells[fd - FD_BASE][ENV.slot()], 8, true, pc); return; }
+    for (int t = 0; t < MAXTHREADS + 2; t++) simrt::on_access((uintptr_t) &g_fd_cells[fd - FD_BASE][t], 8, false, pc);
 }
+int open_sim_fds();
 ssize_t h_getrandom(void *buf, size_t n, unsigned) {
     simrt::yield_point(simrt::Y_SYSCALL, 10);
     if (g_no_getrandom) { errno = ENOSYS; return -1; }
@@ -158,6 +166,7 @@ int h_fstat(int fd, struct stat *st) {
     memset(st, 0, sizeof *st); st->st_mode = S_IFCHR | 0666;
     return 0;
 }
+int open_sim_fds() { int n = 0; for (auto &f : g_fds) n += f.open; return n; }
 int h_fcntl(int fd, int, long) { fd_access(fd, false); return 0; }
 int h_poll(struct pollfd *pf, nfds_t n, int) { for (nfds_t i = 0; i < n; i++) { fd_access(pf[i].fd, false); pf[i].revents = POLLIN; } return (int) n; }
 
@@ -193,6 +202,7 @@ int h_posix_memalign(void **out, size_t al, size_t n) {
     simos_resume(d);
     return rc;
 }
+std::map<uintptr_t, size_t> g_lib_maps; // every mapping the library currently owns (whoever made it, whenever)
 void *h_mmap(void *addr, size_t len, int prot, int flags, int fd, off_t off) {
     int d = simos_suspend();
     void *p;
@@ -211,13 +221,22 @@ void *h_mmap(void *addr, size_t len, int prot, int flags, int fd, off_t off) {
             p = (void *) a;
         }
     } else p = simos_real_mmap(addr, len, prot, flags & ~MAP_POPULATE, fd, off);
-    if (p != MAP_FAILED) simrt::register_block((uintptr_t) p, len, 'M');
+    if (p != MAP_FAILED) { simrt::register_block((uintptr_t) p, len, 'M'); g_lib_maps[(uintptr_t) p] = len; }
     simos_resume(d);
     simrt::yield_point(simrt::Y_SYSCALL, 23);
     return p;
 }
 int h_munmap(void *addr, size_t len) {
     int d = simos_suspend();
+    auto it = g_lib_maps.find((uintptr_t) addr);
+    if (it == g_lib_maps.end()) {
+        // the address space is process-wide: unmapping a range the library no longer owns (a second munmap of the same
+        // region) is harmless only while no other thread has been given those addresses in between
+        simos_resume(d);
+        if (tls_tid >= 0) simrt::fatal("munmap-of-unowned-range", "munmap", "the library unmapped " + std::to_string(len) + " bytes at an address it does not (or no longer) own, in thread " + std::to_string(tls_tid) + ": any mapping another thread obtained there in the meantime is destroyed");
+        return 0;
+    }
+    g_lib_maps.erase(it);
     simrt::unregister_block((uintptr_t) addr);
     int rc = simos_real_munmap(addr, len);
     simos_resume(d);
@@ -794,6 +813,7 @@ struct Outcome {
     std::vector<std::vector<uint64_t>> results; // per thread, per op
     uint64_t pagesize_queries = 0, init_entropy_calls = 0, init_entropy_bytes = 0, init_stirs = 0, init_src_bytes = 0;
     uint64_t first[5] = {0, 0, 0, 0, 0}; // the same five at the return of the first sodium_init() call
+    int first_fds = 0, end_fds = 0;      // simulated descriptors open at that moment / when every thread has finished
     int winner = -1;
     Json to_json() const {
         Json j = Json::object();
@@ -802,7 +822,7 @@ struct Outcome {
         for (auto &t : results) { Json a = Json::array(); for (uint64_t v : t) a.push(hex64(v)); rs.push(a); }
         j["results"] = rs;
         j["pq"] = pagesize_queries; j["ic"] = init_entropy_calls; j["ib"] = init_entropy_bytes; j["is"] = init_stirs; j["isb"] = init_src_bytes; j["winner"] = winner;
-        Json f = Json::array(); for (int i = 0; i < 5; i++) f.push(first[i]); j["first"] = f;
+        Json f = Json::array(); for (int i = 0; i < 5; i++) f.push(first[i]); j["first"] = f; j["first_fds"] = first_fds; j["end_fds"] = end_fds;
         return j;
     }
     static Outcome from_json(const Json &j) {
@@ -811,6 +831,7 @@ struct Outcome {
         for (auto &t : j.at("results").a) { std::vector<uint64_t> r; for (auto &v : t.a) r.push_back(strtoull(v.str().c_str(), nullptr, 16)); o.results.push_back(r); }
         o.pagesize_queries = j.at("pq").u64(); o.init_entropy_calls = j.at("ic").u64(); o.init_entropy_bytes = j.at("ib").u64(); o.init_stirs = j.at("is").u64(); o.init_src_bytes = j.at("isb").u64();
         for (size_t i = 0; i < 5 && i < j.at("first").a.size(); i++) o.first[i] = j.at("first").a[i].u64();
+        o.first_fds = (int) j.at("first_fds").i64(); o.end_fds = (int) j.at("end_fds").i64();
         o.winner = (int) j.at("winner").i64(-1);
         return o;
     }
@@ -865,7 +886,7 @@ Outcome run_plan(const PlanT &p, int strategy, const std::vector<int> &seq_order
     g_sysconf_fails = p.sysconf_fails; g_sysconf_failed = 0;
     g_rl_memlock.rlim_cur = 65536; g_rl_memlock.rlim_max = RLIM_INFINITY;
     g_env_fault_pct = p.env_fault_pct; memset(g_env_calls, 0, sizeof g_env_calls); g_eintr_fired = g_mlock_refused = 0;
-    g_no_getrandom = p.no_getrandom; for (auto &f : g_fds) f = SimFd(); g_dev_reads = g_dev_opens = 0;
+    g_no_getrandom = p.no_getrandom; for (auto &f : g_fds) f = SimFd(); g_dev_reads = g_dev_opens = 0; ENV.count_fds = open_sim_fds;
     g_script_seed = mix64(p.content_seed, 0x5c21); memset(g_script_off, 0, sizeof g_script_off);
     if (p.rng == R_INTERNAL) randombytes_set_implementation(&randombytes_internal_implementation);
     else if (p.rng == R_SCRIPTED) randombytes_set_implementation(&g_scripted_mt);
@@ -873,6 +894,7 @@ Outcome run_plan(const PlanT &p, int strategy, const std::vector<int> &seq_order
         ENV.in_init[MAXTHREADS] = true;
         { LibScope l; if (sodium_init() != 0) { fprintf(stderr, "pre-init failed\n"); _exit(3); } }
         ENV.in_init[MAXTHREADS] = false;
+        ENV.snapshot_first();
     }
     RT.est_steps = 80 * (uint64_t) p.nthreads + 250 * (uint64_t) p.ops.size() + 50; // where PCT places its priority-change points
     RT.reset(p.nthreads, p.sched_seed, strategy, p.pct_depth);
@@ -908,6 +930,7 @@ Outcome run_plan(const PlanT &p, int strategy, const std::vector<int> &seq_order
     out.pagesize_queries = ENV.init_pagesize_queries; out.init_entropy_calls = ENV.init_entropy_calls; out.init_entropy_bytes = ENV.init_entropy_bytes;
     out.init_stirs = ENV.init_stirs; out.init_src_bytes = ENV.init_src_bytes;
     memcpy(out.first, ENV.first, sizeof out.first);
+    out.first_fds = ENV.first_fds; out.end_fds = open_sim_fds();
     for (int i = 0; i < p.nthreads; i++) if (out.init_ret[(size_t) i] == 0 && out.winner < 0) out.winner = i;
     return out;
 }
@@ -1126,6 +1149,13 @@ struct C19 {
                 res.fail("init-not-exactly-once", "more-than-one-call", std::string("all sodium_init() calls of the run together made ") + std::to_string(g5[q]) + " " + nm5[q] + "; a single sodium_init() call (sequential reference, first call) makes " + std::to_string(ref.first[q]), (int) RT.steps);
                 return res;
             }
+        }
+        if (p.no_getrandom && got.end_fds != ref.first_fds) {
+            // conservation: whatever the threads did, the library holds as many descriptors on the entropy device at the
+            // end as one initialisation opens (randombytes_close() is not part of this configuration's workload)
+            res.fail("descriptor-leak", "entropy-device", std::to_string(got.end_fds) + " descriptor(s) on the entropy device are open when all " + std::to_string(p.nthreads) +
+                     " threads have finished; one sodium_init() leaves " + std::to_string(ref.first_fds) + " open (sequential reference, first call)", (int) RT.steps);
+            return res;
         }
         if (got.pagesize_queries != ref.pagesize_queries || got.init_entropy_calls != ref.init_entropy_calls || got.init_entropy_bytes != ref.init_entropy_bytes ||
             got.init_stirs != ref.init_stirs || got.init_src_bytes != ref.init_src_bytes) {
